@@ -60,9 +60,8 @@ class StaticField(Field):
                 odxraise(f"The individual parameter values for static field '{self.short_name}' "
                          f"must be dictionaries for structure '{self.structure.short_name}'")
 
-            if i == len(physical_value) - 1:
-                encode_state.is_end_of_pdu = orig_is_end_of_pdu
-
+            # note that even the last item is not located at the end
+            # of the PDU because it may be followed by padding bytes
             pos_before = encode_state.cursor_byte_position
             self.structure.encode_into_pdu(val, encode_state)
             pos_after = encode_state.cursor_byte_position
